@@ -70,4 +70,80 @@ Proof.
   exists s2. split; [exact R2|]. split; [exact F2|]. rewrite W2, W1. reflexivity.
 Qed.
 
+Lemma p_ack_ff u idx e s : ff s ->
+  exists s1, ff s1 /\ o_w s1 = put_cursor (o_w s) u (S idx) /\ p_ack u idx e s = (Ok tt, s1) /\
+             o_trace s1 = TAck e ROk :: o_trace s.
+Proof.
+  intros H. unfold p_ack.
+  match goal with |- context [prim ?k ?ctx ?T ?E ?X s] => destruct (prim_fft k ctx T E X s H) as (s1 & F1 & W1 & T1 & R1) end.
+  exists s1. split; [exact F1|]. split; [exact W1|]. split; [rewrite R1; reflexivity|exact T1].
+Qed.
+
+(* the whole iteration of the delete consumer on a request, fault-free, default deletion: the run is (re)written as DataDeleted,
+   the request is acknowledged — the committed position moves past it — and the process stays in its consume loop *)
+Theorem delete_iteration_ff idx e r s :
+  ff s -> ec_del c = 0 -> lookup_run (o_w s) (e_run e) = Some r ->
+  exists s', after_lag c 1 EDelete idx e s = (Ok PRun, s') /\ ff s' /\
+             o_w s' = put_cursor (do_store c (o_w s) (bump (set_state (set_obj r ODeleted) RSDataDeleted))) EDelete (S idx).
+Proof.
+  intros H Hd Hl. unfold after_lag. cbn [unit_filter unit_handler].
+  unfold bind at 1. unfold bind at 1.
+  destruct (delete_handler_ff_default e r s H Hd Hl) as (s1 & R1 & F1 & W1). rewrite R1.
+  destruct (p_ack_ff EDelete idx e s1 F1) as (s2 & F2 & W2 & R2 & _). rewrite R2.
+  exists s2. split; [reflexivity|]. split; [exact F2|]. rewrite W2, W1. reflexivity.
+Qed.
+
+Lemma invoke_ret_ff u b status view seed tr mark z s :
+  ff s -> r_obj view = OVal seed tr ->
+  eval_beh b (att_get (w_att (o_w s)) (ufun_code u) (r_run view)) seed = (mark, ARet z) ->
+  exists s1, invoke c u b status view s = (Ok (if mark then mark_obj (r_obj view) status else r_obj view, inl z, view), s1) /\ ff s1 /\
+             w_recs (o_w s1) = w_recs (o_w s) /\ w_now (o_w s1) = w_now (o_w s).
+Proof.
+  intros (P & L & D) Ho Hb. unfold invoke. unfold bind at 1. unfold att_bump. cbn [fst snd].
+  unfold bind at 1, get_w. cbn [fst snd o_w]. rewrite Ho. cbn [obj_seed]. rewrite Hb.
+  unfold bind at 1. unfold emit. cbn [o_dead]. rewrite D. cbn [fst snd ret].
+  eexists. split; [reflexivity|]. split; [repeat split; cbn; assumption|]. split; reflexivity.
+Qed.
+
+Lemma lookup_run_recs w w' run : w_recs w' = w_recs w -> lookup_run w' run = lookup_run w run.
+Proof. intros E. unfold lookup_run. now rewrite E. Qed.
+
+(* step.go stepConsumer on the event of the run's current version, fault-free: the step function returns a declared destination
+   z (not a skip) ==> the handler returns nil and the run is written at z with the object the function left behind
+   (marked or not), Running or (terminal) Completed, version + 1 *)
+Theorem step_declared_status_persisted inst u st b n e r seed tr mark z s :
+  ff s -> lookup_run (o_w s) (e_run e) = Some r -> r_run r = e_run e -> r_ver r = e_ver e -> rs_stopped (r_state r) = false ->
+  r_obj r = OVal seed tr -> r_status r = st ->
+  eval_beh b (att_get (w_att (o_w s)) (ufun_code (UFStep st)) (e_run e)) seed = (mark, ARet z) ->
+  skip_status z = false -> validate_transition g st z = true ->
+  exists s' w1, step_handler c inst u st (invoke c (UFStep st) b st) n e s = (Ok tt, s') /\ ff s' /\
+    w_recs w1 = w_recs (o_w s) /\ w_now w1 = w_now (o_w s) /\
+    o_w s' = do_store c w1
+      (bump (mkRecord (r_wf r) (r_fid r) (r_run r) (if is_terminal g z then RSCompleted else RSRunning) z
+                      (if mark then mark_obj (r_obj r) st else r_obj r) (r_created r) (w_now (o_w s)) (r_ver r) (r_reason r) z)).
+Proof.
+  intros H Hl Hrr Hv Hst Ho Hs Hb Hk Hval.
+  unfold step_handler. unfold bind at 1.
+  destruct (p_lookup_ff (e_run e) s H) as (s1 & F1 & W1 & R1 & _). rewrite R1, Hl.
+  assert (E1 : (r_ver r >? e_ver e) = false) by (rewrite Z.gtb_ltb; apply Z.ltb_ge; lia). rewrite E1.
+  assert (E2 : (r_ver r <? e_ver e) = false) by (apply Z.ltb_ge; lia). rewrite E2. rewrite Hst.
+  unfold bind at 1. unfold build_run. rewrite Ho. cbn [ret fst snd].
+  assert (Hpo : r_obj (promote r) = OVal seed tr) by (unfold promote; destruct (r_state r); cbn; exact Ho).
+  assert (Hrun : r_run (promote r) = r_run r) by (unfold promote; destruct (r_state r); reflexivity).
+  unfold bind at 1.
+  destruct (invoke_ret_ff (UFStep st) b st (promote r) seed tr mark z s1 F1 Hpo) as (s2 & R2 & F2 & Wr2 & Wn2).
+  { rewrite W1, Hrun, Hrr. exact Hb. }
+  rewrite R2. rewrite Hk.
+  assert (Hl2 : lookup_run (o_w s2) (r_run (set_obj (promote r) (if mark then mark_obj (r_obj (promote r)) st else r_obj (promote r)))) = Some r).
+  { rewrite (lookup_run_recs (o_w s1) (o_w s2)) by exact Wr2. rewrite W1. cbn [set_obj r_run]. rewrite Hrun, Hrr. exact Hl. }
+  destruct (updater_ff st z _ r s2 F2 Hl2 Hs Hval) as (s3 & R3 & F3 & W3 & _).
+  rewrite R3. exists s3, (o_w s2). split; [reflexivity|]. split; [exact F3|].
+  split; [rewrite Wr2, W1; reflexivity|]. split; [rewrite Wn2, W1; reflexivity|].
+  rewrite W3. rewrite Wn2, W1.
+  assert (Hp : forall o, set_obj (promote r) o = set_obj (promote r) o) by reflexivity.
+  f_equal. f_equal. cbn [set_obj r_wf r_fid r_run r_obj r_created r_ver r_reason].
+  rewrite Hpo. rewrite <- Ho.
+  unfold promote. destruct (r_state r); cbn; rewrite ?Ho; reflexivity.
+Qed.
+
 End FF.
